@@ -155,6 +155,10 @@ class Ctx:
         for fid, (f, keys) in sorted(old.items()):
             print(f"KNOWN-FINDING: property={self.prop} {f['id']}: {f['what']} ({len(keys)} listed case(s) reproduced)")
         replay_dir = os.path.join(OUT, "replays", self.prop)
+        if os.path.isdir(replay_dir) and not getattr(self, "only", None):  # stale replays of earlier runs would mislead
+            for fn in os.listdir(replay_dir):
+                if fn.endswith(".json"):
+                    os.remove(os.path.join(replay_dir, fn))
         printed = 0
         for v in new:
             os.makedirs(replay_dir, exist_ok=True)
